@@ -4,6 +4,7 @@ package main
 // directly or through callees (Go and assembler), and which parameters it retains.
 
 import (
+	"fmt"
 	"go/token"
 	"go/types"
 	"sort"
@@ -21,9 +22,11 @@ type writeSite struct {
 type effSummary struct {
 	fn          *ssa.Function
 	writesParam []bool
+	writesDeep  []bool // the write goes through a pointer loaded from the parameter's object (its contents' pointees)
 	paramSites  [][]writeSite
 	globals     map[*ssa.Global][]writeSite
 	retAlias    []int  // result aliases parameter (or -1)
+	retGlobal   []*ssa.Global // result may alias (contain pointers into) this package-level variable
 	retFresh    []bool // result is a fresh allocation on every path
 	retains     []bool // parameter's memory is stored into another object (heap/global/returned)
 	retainSites [][]writeSite
@@ -41,7 +44,7 @@ func NewEffects(p *Prog, asmWrite map[string]map[int]bool) *Effects {
 	for _, f := range p.RepoFuncs() {
 		n := len(f.Params)
 		nr := f.Signature.Results().Len()
-		e.sum[f] = &effSummary{fn: f, writesParam: make([]bool, n), paramSites: make([][]writeSite, n), globals: map[*ssa.Global][]writeSite{}, retAlias: fillInts(nr, -1), retFresh: make([]bool, nr), retains: make([]bool, n), retainSites: make([][]writeSite, n)}
+		e.sum[f] = &effSummary{fn: f, writesParam: make([]bool, n), writesDeep: make([]bool, n), paramSites: make([][]writeSite, n), globals: map[*ssa.Global][]writeSite{}, retAlias: fillInts(nr, -1), retGlobal: make([]*ssa.Global, nr), retFresh: make([]bool, nr), retains: make([]bool, n), retainSites: make([][]writeSite, n)}
 	}
 	return e
 }
@@ -184,6 +187,7 @@ func (e *Effects) analyze(fn *ssa.Function) {
 	type wr struct {
 		root ssa.Value
 		site writeSite
+		deep bool // callee writes through pointers stored in the argument's object
 	}
 	var writes []wr
 	type rt struct {
@@ -208,15 +212,15 @@ func (e *Effects) analyze(fn *ssa.Function) {
 						}
 					}
 				case *ssa.Store:
-					writes = append(writes, wr{x.Addr, writeSite{fn, in, ""}})
-					if isPtrLike(x.Val.Type()) && !isConst(x.Val) {
+					writes = append(writes, wr{x.Addr, writeSite{fn, in, ""}, false})
+					if (isPtrLike(x.Val.Type()) || containsPointers(x.Val.Type(), 0)) && !isConst(x.Val) {
 						retainsL = append(retainsL, rt{x.Val, x.Addr, writeSite{fn, in, ""}})
 						s.union(s.root(x.Val), s.root(x.Addr))
 					}
 				case *ssa.MapUpdate:
-					writes = append(writes, wr{x.Map, writeSite{fn, in, ""}})
+					writes = append(writes, wr{x.Map, writeSite{fn, in, ""}, false})
 				case *ssa.Send:
-					writes = append(writes, wr{x.Chan, writeSite{fn, in, ""}})
+					writes = append(writes, wr{x.Chan, writeSite{fn, in, ""}, false})
 				case ssa.CallInstruction:
 					c := x.Common()
 					val, isVal := in.(ssa.Value)
@@ -227,14 +231,14 @@ func (e *Effects) analyze(fn *ssa.Function) {
 					if b, ok := c.Value.(*ssa.Builtin); ok {
 						switch b.Name() {
 						case "copy":
-							writes = append(writes, wr{args[0], writeSite{fn, in, "copy"}})
+							writes = append(writes, wr{args[0], writeSite{fn, in, "copy"}, false})
 						case "append":
-							writes = append(writes, wr{args[0], writeSite{fn, in, "append"}})
+							writes = append(writes, wr{args[0], writeSite{fn, in, "append"}, false})
 							if isVal {
 								s.union(val, s.root(args[0]))
 							}
 						case "clear":
-							writes = append(writes, wr{args[0], writeSite{fn, in, "clear"}})
+							writes = append(writes, wr{args[0], writeSite{fn, in, "clear"}, false})
 						}
 						continue
 					}
@@ -249,7 +253,7 @@ func (e *Effects) analyze(fn *ssa.Function) {
 						// unknown dynamic call: every pointer-like argument may be written
 						for _, a := range args {
 							if hasContent(a.Type()) {
-								writes = append(writes, wr{a, writeSite{fn, in, "dynamic call"}})
+								writes = append(writes, wr{a, writeSite{fn, in, "dynamic call"}, false})
 							}
 						}
 						continue
@@ -258,7 +262,7 @@ func (e *Effects) analyze(fn *ssa.Function) {
 						if cs, ok := e.sum[cal]; ok && len(cal.Blocks) > 0 {
 							for j, a := range args {
 								if j < len(cs.writesParam) && cs.writesParam[j] {
-									writes = append(writes, wr{a, writeSite{fn, in, e.p.FuncName(cal)}})
+									writes = append(writes, wr{a, writeSite{fn, in, e.p.FuncName(cal)}, j < len(cs.writesDeep) && cs.writesDeep[j]})
 								}
 								if j < len(cs.retains) && cs.retains[j] && isPtrLike(a.Type()) {
 									retainsL = append(retainsL, rt{a, nil, writeSite{fn, in, e.p.FuncName(cal)}})
@@ -274,6 +278,9 @@ func (e *Effects) analyze(fn *ssa.Function) {
 								if len(cs.retAlias) == 1 {
 									if k := cs.retAlias[0]; k >= 0 && k < len(args) {
 										s.union(val, s.root(args[k]))
+									}
+									if g := cs.retGlobal[0]; g != nil {
+										s.union(val, g)
 									}
 								} else if len(cs.retAlias) > 1 {
 									roots := make([]ssa.Value, len(cs.retAlias))
@@ -291,14 +298,14 @@ func (e *Effects) analyze(fn *ssa.Function) {
 							w, known := e.asmWrite[cal.Name()]
 							for j, a := range args {
 								if hasContent(a.Type()) && (!known || w[j]) {
-									writes = append(writes, wr{a, writeSite{fn, in, "asm " + cal.Name()}})
+									writes = append(writes, wr{a, writeSite{fn, in, "asm " + cal.Name()}, false})
 								}
 							}
 							continue
 						}
 						for _, j := range externalWrites(cal, len(args)) {
 							if j < len(args) && hasContent(args[j].Type()) {
-								writes = append(writes, wr{args[j], writeSite{fn, in, cal.String()}})
+								writes = append(writes, wr{args[j], writeSite{fn, in, cal.String()}, false})
 							}
 						}
 						// external methods returning their receiver
@@ -334,13 +341,17 @@ func (e *Effects) analyze(fn *ssa.Function) {
 		return -1, nil
 	}
 	for _, w := range writes {
-		if directLocal(w.root) {
+		if directLocal(w.root) && !w.deep {
 			continue // a store into a local variable (or fresh object) of this invocation itself
 		}
 		i, g := classify(w.root)
 		if i >= 0 {
 			if !sum.writesParam[i] {
 				sum.writesParam[i] = true
+				e.changed = true
+			}
+			if (w.deep || crossesLoad(w.root)) && !sum.writesDeep[i] {
+				sum.writesDeep[i] = true
 				e.changed = true
 			}
 			if len(sum.paramSites[i]) < 4 {
@@ -392,9 +403,13 @@ func (e *Effects) analyze(fn *ssa.Function) {
 				if !hasContent(rv.Type()) || isConst(rv) {
 					continue
 				}
-				i, _ := classify(rv)
+				i, g := classify(rv)
 				if i >= 0 && sum.retAlias[k] != i {
 					sum.retAlias[k] = i
+					e.changed = true
+				}
+				if g != nil && sum.retGlobal[k] == nil {
+					sum.retGlobal[k] = g
 					e.changed = true
 				}
 			}
@@ -493,6 +508,88 @@ func AsmMayWrite(u *AsmUnit, p *Prog) (map[string]map[int]bool, []string) {
 }
 
 // directLocal: the address lies inside a local Alloc / fresh allocation itself (not behind a pointer loaded from it).
+// crossesLoad: the written address is reached through a pointer-like value loaded from memory (so the write lands in an
+// object that was stored into the root, not in the root object itself)
+func crossesLoad(v ssa.Value) bool {
+	for i := 0; i < 100; i++ {
+		switch x := v.(type) {
+		case *ssa.FieldAddr:
+			v = x.X
+		case *ssa.IndexAddr:
+			v = x.X
+		case *ssa.Slice:
+			v = x.X
+		case *ssa.ChangeType:
+			v = x.X
+		case *ssa.Convert:
+			v = x.X
+		case *ssa.SliceToArrayPointer:
+			v = x.X
+		case *ssa.Phi:
+			for _, ed := range x.Edges {
+				if ed != v && crossesLoadShallow(ed) {
+					return true
+				}
+			}
+			return false
+		case *ssa.UnOp:
+			if x.Op == token.MUL && hasContent(x.Type()) {
+				return true
+			}
+			return false
+		case *ssa.Field, *ssa.Index:
+			return hasContent(v.Type())
+		default:
+			return false
+		}
+	}
+	return false
+}
+
+func crossesLoadShallow(v ssa.Value) bool {
+	for i := 0; i < 20; i++ {
+		switch x := v.(type) {
+		case *ssa.FieldAddr:
+			v = x.X
+		case *ssa.IndexAddr:
+			v = x.X
+		case *ssa.Slice:
+			v = x.X
+		case *ssa.UnOp:
+			return x.Op == token.MUL && hasContent(x.Type())
+		case *ssa.Call:
+			// append result: look at its first argument
+			if b, ok := x.Call.Value.(*ssa.Builtin); ok && b.Name() == "append" {
+				v = x.Call.Args[0]
+				continue
+			}
+			return false
+		default:
+			return false
+		}
+	}
+	return false
+}
+
+// containsPointers: a struct or array value that carries pointer-like fields (copying it shares their pointees)
+func containsPointers(t types.Type, depth int) bool {
+	if depth > 6 {
+		return false
+	}
+	switch tt := t.Underlying().(type) {
+	case *types.Struct:
+		for i := 0; i < tt.NumFields(); i++ {
+			ft := tt.Field(i).Type()
+			if isPtrLike(ft) || containsPointers(ft, depth+1) {
+				return true
+			}
+		}
+	case *types.Array:
+		return isPtrLike(tt.Elem()) || containsPointers(tt.Elem(), depth+1)
+	}
+	return false
+}
+
 func directLocal(v ssa.Value) bool {
 	for i := 0; i < 50; i++ {
 		switch x := v.(type) {
@@ -521,4 +618,49 @@ func directLocal(v ssa.Value) bool {
 		}
 	}
 	return false
+}
+
+// freshResultObligations: a function that hands out one of the mutable arithmetic objects (*SM2Point, *SM2Element,
+// *SM2ScalarElement) must return either its own receiver or storage no package-level variable and no other parameter
+// can reach: otherwise an in-place operation on the result silently changes shared state (or the caller's operand).
+func freshResultObligations(r *Report, p *Prog, e *Effects) {
+	isArith := func(t types.Type) bool {
+		pt, ok := t.Underlying().(*types.Pointer)
+		if !ok {
+			return false
+		}
+		n, ok := pt.Elem().(*types.Named)
+		if !ok {
+			return false
+		}
+		switch n.Obj().Name() {
+		case "SM2Point", "SM2Element", "SM2ScalarElement":
+			return true
+		}
+		return false
+	}
+	for _, fn := range p.RepoFuncs() {
+		sum := e.sum[fn]
+		if sum == nil || len(fn.Blocks) == 0 || fn.Parent() != nil {
+			continue
+		}
+		res := fn.Signature.Results()
+		for k := 0; k < res.Len(); k++ {
+			if !isArith(res.At(k).Type()) {
+				continue
+			}
+			key := fmt.Sprintf("%s result#%d", p.FuncName(fn), k)
+			pos := p.Pos(fn.Pos())
+			r.Count("fresh_result_obligations", 1)
+			if g := sum.retGlobal[k]; g != nil {
+				r.Viol("FRESH-RESULT", key, pos, "the returned object shares storage with the package-level variable "+g.Name()+": an in-place operation on the result changes it for every other user")
+				continue
+			}
+			if i := sum.retAlias[k]; i >= 0 && !(i == 0 && fn.Signature.Recv() != nil) && !sum.writesParam[i] {
+				r.Viol("FRESH-RESULT", key, pos, "the returned object shares storage with the input parameter "+fn.Params[i].Name()+" (only the receiver or a destination the function itself fills may be returned)")
+				continue
+			}
+			r.Ok("FRESH-RESULT", key, pos, "returns its receiver, a destination parameter it fills, or freshly allocated storage")
+		}
+	}
 }
